@@ -530,10 +530,12 @@ struct Case {
     /// a text that is typeset and hyphenated by the same hyphenator BEFORE the exceptions are inserted
     /// (state carried from one pass to the next, e.g. a cache, must not show)
     warmup: Option<String>,
+    /// when set, the underlying hyphenate::Hyphenator is `default()` + `load_patterns(this)` instead of a named set
+    custom_patterns: Option<String>,
 }
 impl Case {
     fn json(&self) -> Value {
-        json!({"kind": "list", "program": self.program.iter().map(|r| r.json()).collect::<Vec<_>>(), "program_text": self.program.iter().map(|r| r.compact()).collect::<Vec<_>>(), "text": self.text, "patterns": self.patterns, "lhm": self.lhm, "rhm": self.rhm, "shape": self.shape, "exceptions": self.exceptions, "warmup": self.warmup})
+        json!({"kind": "list", "program": self.program.iter().map(|r| r.json()).collect::<Vec<_>>(), "program_text": self.program.iter().map(|r| r.compact()).collect::<Vec<_>>(), "text": self.text, "patterns": self.patterns, "lhm": self.lhm, "rhm": self.rhm, "shape": self.shape, "exceptions": self.exceptions, "warmup": self.warmup, "custom_patterns": self.custom_patterns})
     }
 }
 
@@ -854,6 +856,7 @@ fn main() {
             shape: case["shape"].as_u64().unwrap_or(0) as u8,
             exceptions: case["exceptions"].as_array().map(|a| a.iter().filter_map(|x| x.as_str().map(String::from)).collect()).unwrap_or_default(),
             warmup: case["warmup"].as_str().map(String::from),
+            custom_patterns: case["custom_patterns"].as_str().map(String::from),
         };
         let font = synthetic_font(&env, &c.program).expect("program of a replay case compiles");
         let mut hy = real_hyphenator(&env, &font, &c.patterns, c.lhm, c.rhm);
@@ -862,6 +865,12 @@ fn main() {
             "every" => env.every.clone(),
             _ => env.every_ab.clone(),
         };
+        if let Some(cp) = &c.custom_patterns {
+            hy.hyphenator = hyphenate::Hyphenator::default();
+            hy.hyphenator.load_patterns(cp);
+            lang = Liang::new();
+            lang.add_patterns(cp, &ascii_lc);
+        }
         if let Some(w) = &c.warmup {
             let mut l = typeset(&font, w, 0);
             let _ = catch(|| hy.hyphenate(&mut l));
@@ -917,7 +926,7 @@ fn main() {
             let d = vcore::digits(idx, &[nv, nt, nh]);
             let w = &vocab_r[d[0] as usize];
             let (ps, l, r, hy) = &hys_r[d[2] as usize];
-            let case = Case { program: vec![], text: templates_r[d[1] as usize].replace("{}", w), patterns: ps.clone(), lhm: *l, rhm: *r, shape: 0, exceptions: vec![], warmup: None };
+            let case = Case { program: vec![], text: templates_r[d[1] as usize].replace("{}", w), patterns: ps.clone(), lhm: *l, rhm: *r, shape: 0, exceptions: vec![], warmup: None, custom_patterns: None };
             if !case.text.is_ascii() {
                 acc.count("text_with_a_non_ascii_character");
             }
@@ -941,7 +950,7 @@ fn main() {
         ctx.family("cmr10-two-words", &format!("cmr10: 'x W1 W2' for every ordered pair of the {nv} words{} x all {nh} (pattern set, minima) settings", if maxlen == 16 { " of at most 16 characters" } else { " of the vocabulary" }), nv * nv * nh, |idx, acc| {
             let d = vcore::digits(idx, &[nv, nv, nh]);
             let (ps, l, r, hy) = &hys_r[sel_r[d[2] as usize]];
-            let case = Case { program: vec![], text: format!("x {} {}", short_r[d[0] as usize], short_r[d[1] as usize]), patterns: ps.clone(), lhm: *l, rhm: *r, shape: 0, exceptions: vec![], warmup: None };
+            let case = Case { program: vec![], text: format!("x {} {}", short_r[d[0] as usize], short_r[d[1] as usize]), patterns: ps.clone(), lhm: *l, rhm: *r, shape: 0, exceptions: vec![], warmup: None, custom_patterns: None };
             judge(idx, &case, cmr_r, hy, if ps == "plain" { &env_r.plain } else { &env_r.every }, acc);
         });
     }
@@ -975,7 +984,7 @@ fn main() {
         ctx.family("cmr10-two-fonts", &format!("cmr10 registered as font 0 and font 1: 'x W' with each of the {} letter-only words of at most 12 letters switched from font fa to font fb at every split position, (fa,fb) in (0,1),(1,0), or wholly in font 1, followed by nothing | a word in font 0 | (after letters of font 1) a period in font 0 x 6 (pattern set, minima) settings", words.len()), cases.len() as u64, |idx, acc| {
             let (text, h) = &cases_r[idx as usize];
             let (ps, l, r, hy) = &hys_r[*h];
-            let case = Case { program: vec![], text: text.clone(), patterns: ps.clone(), lhm: *l, rhm: *r, shape: 0, exceptions: vec![], warmup: None };
+            let case = Case { program: vec![], text: text.clone(), patterns: ps.clone(), lhm: *l, rhm: *r, shape: 0, exceptions: vec![], warmup: None, custom_patterns: None };
             if !text.contains("{0}{1}") && !text.contains("{1}{0}") && (text.contains("{0}") && text[3..].contains("{1}")) {
                 acc.count("word_split_by_a_font_change");
             }
@@ -991,7 +1000,7 @@ fn main() {
         ctx.family("cmr10-list-shapes", &format!("cmr10: {nw} words x {nt} templates x 6 post-edits of the list (a glue appended | every glue doubled | penalty 0 after every glue | explicit kern 0 after every glue | penalty 10000 + glue appended | font kern 0 after every glue) x all {nh} (pattern set, minima) settings"), nw * nt * ns * nh, |idx, acc| {
             let d = vcore::digits(idx, &[nw, nt, ns, nh]);
             let (ps, l, r, hy) = &hys_r[d[3] as usize];
-            let case = Case { program: vec![], text: templates[d[1] as usize].replace("{}", words[d[0] as usize]), patterns: ps.clone(), lhm: *l, rhm: *r, shape: d[2] as u8 + 1, exceptions: vec![], warmup: None };
+            let case = Case { program: vec![], text: templates[d[1] as usize].replace("{}", words[d[0] as usize]), patterns: ps.clone(), lhm: *l, rhm: *r, shape: d[2] as u8 + 1, exceptions: vec![], warmup: None, custom_patterns: None };
             acc.count("hand_made_list_shape");
             judge(idx, &case, cmr_r, hy, if ps == "plain" { &env_r.plain } else { &env_r.every }, acc);
         });
@@ -1035,7 +1044,7 @@ fn main() {
             let d = vcore::digits(idx, &[nw, nt, nset]);
             let (li, base, l, r, hy, lang) = &settings_r[d[2] as usize];
             let word = words[d[0] as usize];
-            let case = Case { program: vec![], text: templates[d[1] as usize].replace("{}", word), patterns: base.to_string(), lhm: *l, rhm: *r, shape: 0, exceptions: lists_r[*li].iter().map(|s| s.to_string()).collect(), warmup: None };
+            let case = Case { program: vec![], text: templates[d[1] as usize].replace("{}", word), patterns: base.to_string(), lhm: *l, rhm: *r, shape: 0, exceptions: lists_r[*li].iter().map(|s| s.to_string()).collect(), warmup: None, custom_patterns: None };
             // counters from the case and the model
             let wl: Vec<char> = word.to_ascii_lowercase().chars().collect();
             let base_lang = if *base == "plain" { &env_r.plain } else { &env_r.every };
@@ -1064,16 +1073,52 @@ fn main() {
             let mut hy = real_hyphenator(env_r, cmr_r, base, 1, 1);
             let mut lang = if base == "plain" { env_r.plain.clone() } else { env_r.every.clone() };
             let warm = format!("x {}", spellings[d[0] as usize]);
-            let first = Case { program: vec![], text: warm.clone(), patterns: base.to_string(), lhm: 1, rhm: 1, shape: 0, exceptions: vec![], warmup: None };
+            let first = Case { program: vec![], text: warm.clone(), patterns: base.to_string(), lhm: 1, rhm: 1, shape: 0, exceptions: vec![], warmup: None, custom_patterns: None };
             judge(idx, &first, cmr_r, &hy, &lang, acc);
             hy.hyphenator.insert_exception(entries[d[1] as usize]);
             lang.add_exception(entries[d[1] as usize], &ascii_lc);
-            let second = Case { program: vec![], text: format!("x {}", spellings[d[2] as usize]), patterns: base.to_string(), lhm: 1, rhm: 1, shape: 0, exceptions: vec![entries[d[1] as usize].to_string()], warmup: Some(warm) };
+            let second = Case { program: vec![], text: format!("x {}", spellings[d[2] as usize]), patterns: base.to_string(), lhm: 1, rhm: 1, shape: 0, exceptions: vec![entries[d[1] as usize].to_string()], warmup: Some(warm), custom_patterns: None };
             acc.count("list_hyphenated_again_after_insert_exception");
             if d[0] == d[2] && d[2] != 0 {
                 acc.count("same_capitalised_word_hyphenated_before_and_after_insert_exception");
             }
             judge(idx, &second, cmr_r, &hy, &lang, acc);
+        });
+    }
+    // ---------------- F2f: long patterns loaded through the pub field (the 16-zero run encoding at list level)
+    {
+        let seq: Vec<char> = ('a'..='z').cycle().take(40).collect();
+        let mut settings: Vec<(String, String, i32, i32, boxworks_hyphenate::Hyphenator, Liang)> = vec![];
+        for l in [15usize, 16, 17, 31, 32, 33] {
+            for anchored in [false, true] {
+                // a digit after l letters, three more letters behind it
+                let pattern = format!("{}{}1{}", if anchored { "." } else { "" }, seq[..l].iter().collect::<String>(), seq[l..l + 3].iter().collect::<String>());
+                let word: String = seq[..l + 6].iter().collect();
+                for (lm, rm) in [(2, 3), (1, 1)] {
+                    let mut h = hyphenate::Hyphenator::default();
+                    h.load_patterns(&pattern);
+                    let hy = boxworks_hyphenate::Hyphenator { lig_kern_program: cmr.lkp.clone(), hyphenator: h, left_hyphen_min: lm, right_hyphen_min: rm };
+                    let mut lang = Liang::new();
+                    lang.add_patterns(&pattern, &ascii_lc);
+                    settings.push((pattern.clone(), word.clone(), lm, rm, hy, lang));
+                }
+            }
+        }
+        let templates = ["x {}", "x {}.", "x {} {}"];
+        let (nt, ns) = (templates.len() as u64, settings.len() as u64);
+        let (settings_r, cmr_r) = (&settings, &cmr);
+        ctx.family("cmr10-custom-patterns", "cmr10: a hyphenate::Hyphenator loaded (through the pub field) with ONE long pattern - a digit after 15, 16, 17, 31, 32 or 33 letters of abc..., unanchored or anchored at the start - x minima (2,3),(1,1) x the matching word in lower case and capitalised x 3 templates", nt * ns * 2, |idx, acc| {
+            let d = vcore::digits(idx, &[ns, nt, 2]);
+            let (pattern, word, lm, rm, hy, lang) = &settings_r[d[0] as usize];
+            let mut w = word.clone();
+            if d[2] == 1 {
+                w[..1].make_ascii_uppercase();
+            }
+            let case = Case { program: vec![], text: templates[d[1] as usize].replace("{}", &w), patterns: "custom".into(), lhm: *lm, rhm: *rm, shape: 0, exceptions: vec![], warmup: None, custom_patterns: Some(pattern.clone()) };
+            if pattern.chars().take_while(|c| !c.is_ascii_digit()).filter(|c| c.is_ascii_alphabetic()).count() >= 16 {
+                acc.count("list_word_matched_by_pattern_with_16_or_more_leading_letters");
+            }
+            judge(idx, &case, cmr_r, hy, lang, acc);
         });
     }
     // ---------------- F3/F4/F5: synthetic programs
@@ -1157,6 +1202,7 @@ fn main() {
 
     ctx.require("list_hyphenated_again_after_insert_exception", "one hyphenator hyphenates a list, gets an exception, hyphenates a second list");
     ctx.require("same_capitalised_word_hyphenated_before_and_after_insert_exception", "the same spelling with capitals is hyphenated before and after an exception for its word is inserted");
+    ctx.require("list_word_matched_by_pattern_with_16_or_more_leading_letters", "a word in a list is cut by a pattern whose digit follows 16 or more unscored letters (the 16-zero run byte of the op stream)");
     ctx.require("exception_longer_than_longest_pattern", "a word whose exception entry has more letters than the longest pattern plus one is hyphenated in a list");
     ctx.require("exception_redeclared_last_wins", "a word whose exception was declared before with other breaks (plain TeX's entry, or an earlier insert) is hyphenated in a list");
     ctx.require("word_split_by_a_font_change", "a run of letters changes font in the middle (TeX tries only the letters of the first font)");
@@ -1210,7 +1256,7 @@ fn run_synthetic(idx: u64, rules: &[Rule], words: &[String], templates: &[&str],
         let hy = real_hyphenator(env, &font, "every_ab", l, r);
         for w in words {
             for t in templates {
-                let case = Case { program: rules.to_vec(), text: t.replace("{}", w), patterns: "every_ab".into(), lhm: l, rhm: r, shape: 0, exceptions: vec![], warmup: None };
+                let case = Case { program: rules.to_vec(), text: t.replace("{}", w), patterns: "every_ab".into(), lhm: l, rhm: r, shape: 0, exceptions: vec![], warmup: None, custom_patterns: None };
                 // counters from the case: does a boundary / hyphen rule touch this text?
                 let first = w.as_bytes()[0];
                 let last = *w.as_bytes().last().unwrap();
